@@ -58,6 +58,63 @@ CHECKS = {
             "exactly when the trigger holds and before any result-producing call. Bounded: guard matrix on real backend objects and malformed model variants.", "5 C20"),
     note="Trusted: pyvc encoding of strings/tuples; callees without contract are opaque and only counted.",
     technique="contract-based deductive verification of guard functions (exceptional postconditions with an effect counter) + bounded guard matrix", engine="pyvc", rtc=True),
+ "C02": dict(
+    level=("other", "Deductive: TorchBackend._solve_euler satisfies the same contract (euler_iter) as the NumPy loop, for every step count, cadence "
+            "and state, so the two agree by transitivity. Bounded: torch / jax / fortran vector fields and trajectories against the one reference "
+            "semantics, roll on vectors, interpolated inputs, the JAX/Torch loops called directly, float64 after float32 on JAX.", "5 C02"),
+    note="Trusted: as C03 for the loop; spec_rhs/spec_fixed_step; gfortran+f2py+meson, torch, jax as installed. Generated Fortran/XLA/torch kernels are outside any verifier here.",
+    technique="contract-based deductive verification of the Torch solver loop against the shared spec + bounded contract checking of every backend against the spec",
+    engine="pyvc", rtc=True),
+ "C05": dict(
+    level=("exploration", "Bounded: seeded random expression trees in four renderings through both evaluation paths (generated code of a one-equation "
+            "operator, ExpressionParser+eval_node incl. re-evaluation after set_value) against a tree evaluator that never parses a string; a fixed "
+            "table of vector/matrix expressions with the index helpers.", "5 C05"),
+    note="Trusted: rtc.mdl.ev/to_str (self-tested against Python evaluation). The parser (sympify/lambdify/str rewriting) is out of deductive reach.",
+    technique="bounded contract checking of both evaluation paths against a tree evaluator", engine="rtc", rtc=True),
+ "C06": dict(
+    level=("exploration", "Bounded: the DataFrame returned by run() column by column (labels, one column per requested variable, values equal the "
+            "per-variable reference trajectory) for dict/list/wildcard requests, hierarchy, permuted node declarations, vectorize on/off; the same "
+            "paths in update_var.", "5 C06"),
+    note="Trusted: spec_fixed_step; documented label forms.", technique="bounded contract checking of run() outputs against per-variable spec trajectories", engine="rtc", rtc=True),
+ "C07": dict(
+    level=("exploration", "Bounded: sequences of update_var / node_values / edge updates on circuits with shared template objects; afterwards the "
+            "compiled arguments, initial state and vector field must be those of the model with exactly the addressed nodes overridden.", "5 C07"),
+    note="Trusted: mdl_override + spec_rhs.", technique="bounded contract checking of override operations against the overridden spec", engine="rtc", rtc=True),
+ "C08": dict(
+    level=("exploration", "Bounded: integrators under seeded non-constant inputs for every input shape and target form, Euler (exact) and adaptive "
+            "(interpolated reference). The deductive part (the fixed-step loops pass the integer step counter to both Heun stages) is discharged under C03.", "5 C08"),
+    note="Trusted: spec with additive extrinsic terms; scipy reference.", technique="bounded contract checking of run(inputs=...) against the spec (step-counter clause proved in C03)", engine="rtc", rtc=True),
+ "C10": dict(
+    level=("exploration", "Bounded: compiled functions of delayed models called with a hand-made history (component x of hist(t - tau), t in time "
+            "units for adaptive and fixed-step code) and run() against an RK4 method-of-steps reference incl. coarse sampling. DDEHistory (C19) and "
+            "the history feed of the loops (C03) are proved.", "5 C10"),
+    note="Trusted: spec_rhs with hist; method-of-steps reference.", technique="bounded contract checking against spec with user-supplied history (history buffer and feed proved in C19/C03)", engine="rtc", rtc=True),
+ "C12": dict(
+    level=("exploration", "Bounded: J(t,y) of get_jacobian_func against central differences of the get_run_func field in the same ordering, dense and "
+            "sparse, history matrices via a perturbed hand-made history, auto-07p DFDU/DFDP at text level.", "5 C12"),
+    note="Trusted: central differences h=1e-6 in float64.", technique="bounded contract checking of the Jacobian against finite differences of the real vector field", engine="rtc", rtc=True),
+ "C13": dict(
+    level=("exploration", "Bounded: every single API operation and seeded histories of 2 (thorough 3) operations over a pool of colliding models run "
+            "in one process; afterwards the target model and every function returned earlier must satisfy their own spec.", "5 C13"),
+    note="Trusted: spec_rhs as the fresh-interpreter baseline (C01 establishes it in fresh processes).", technique="bounded contract checking over enumerated API histories", engine="rtc", rtc=True),
+ "C14": dict(
+    level=("exploration", "Bounded: deep snapshots of the same in-memory template before/after each read-only or copy-making operation (incl. deriving "
+            "operator/node templates) and sequences of them; afterwards run(in_place=False) twice identical and equal to the spec.", "5 C14"),
+    note="Trusted: snapshot_template reads nodes/edges/circuits/operators/equations/variables.", technique="bounded frame (snapshot) contract checking of read-only operations", engine="rtc", rtc=True),
+ "C15": dict(
+    level=("exploration", "Bounded: models through YAML text, Python + to_yaml + from_yaml and YAML round trip against the spec; derived operators "
+            "with edit dictionaries against the token-based edit; parser.replace bounded-exhaustively (all strings up to length 5/6 over a 9-letter "
+            "alphabet) against spec_replace.", "5 C15"),
+    note="Trusted: to_yaml_dict, spec_replace. A loop-invariant proof of replace over SMT strings was judged out of reach (solvers go unknown).",
+    technique="bounded contract checking of frontend routes + bounded-exhaustive check of replace against a token-based spec", engine="rtc", rtc=True),
+ "C16": dict(
+    level=("exploration", "Bounded: population circuits unit by unit against the reference semantics of the explicit node-and-edge network (signed, "
+            "sparse, non-square matrices, scalar weights, heterogeneous params and initial states, delays and gamma kernels).", "5 C16"),
+    note="Trusted: population_to_explicit + spec_fixed_step.", technique="bounded contract checking of Population/Connectivity against the explicit network's spec", engine="rtc", rtc=True),
+ "C17": dict(
+    level=("exploration", "Bounded: every row of grid_search's parameter table against the spec trajectory of the individually parametrised circuit "
+            "(node params, edge attributes, several targets, permuted and DataFrame grids, inputs), vectorize on/off.", "5 C17"),
+    note="Trusted: mdl_override + spec_fixed_step.", technique="bounded contract checking of grid_search against individual runs of the spec", engine="rtc", rtc=True),
 }
 
 def main():
@@ -75,8 +132,7 @@ def main():
             engine=c["engine"],
             level_claimed=dict(category=c["level"][0], text=c["level"][1], design_ref=c["level"][2]),
             level_note=c["note"], technique=c["technique"]))
-    na = [dict(property_id=p, reason="check not built yet in this session (work in progress; see DESIGN.md section 5 for the planned contracts)")
-          for p in ALL if p not in CHECKS]
+    na = [dict(property_id=p, reason="not claimed") for p in ALL if p not in CHECKS]
     m = dict(
         version=1,
         setup_cmd="./bin/ensure_env.sh",
